@@ -47,7 +47,7 @@ pub fn gen(prop: &str, scen: &str, _k: u64, seed: u64, tier: &str) -> Case {
         }
         "interop.ref_to_ours" => {
             let len = biased_len(&mut r_in, if big { 300_000 } else { 50_000 }, &[4096, 8192, 65536]);
-            case.fmt = (*r_opt.pick(&["xz-easy", "xz-filters", "xz-filters", "lzma-alone", "lzma2-raw", "lzma1-raw", "lzip"])).into();
+            case.fmt = (*r_opt.pick(&["xz-easy", "xz-filters", "xz-filters", "xz-mt", "lzma-alone", "lzma2-raw", "lzma1-raw", "lzip"])).into();
             case.opt = optgen::lzma_opts(&mut r_opt, true);
             if r_opt.pct(30) {
                 case.opt.dict = *r_opt.pick(&[4096u32, 65536, 1 << 20, 3 << 19, 1 << 22]);
@@ -59,7 +59,18 @@ pub fn gen(prop: &str, scen: &str, _k: u64, seed: u64, tier: &str) -> Case {
             case.set("mf", r_opt.below(5) as i64);
             case.set("flush_points", r_ops.range(0, 3) as i64);
             case.set("chunk_seed", (r_ops.next_u64() >> 1) as i64);
-            if case.fmt == "xz-filters" && r_opt.pct(70) {
+            if case.fmt == "xz-mt" {
+                // liblzma's threaded encoder: several blocks whose headers carry both size fields
+                let bs = match r_opt.below(4) {
+                    0 => 4096,
+                    1 => (len / 3).max(4096),
+                    2 => r_opt.urange(4096, 70_000),
+                    _ => 1 << 20,
+                };
+                case.set("mt_block", bs as i64);
+                case.set("mt_threads", r_opt.range(1, 3) as i64);
+            }
+            if (case.fmt == "xz-filters" || case.fmt == "xz-mt") && r_opt.pct(70) {
                 let mut dummy = case.clone();
                 dummy.opt.filters.clear();
                 optgen::xz_extras(&mut r_opt, &mut dummy, len);
@@ -436,6 +447,14 @@ fn ref_encode(case: &Case, data: &[u8]) -> Result<Vec<u8>, String> {
             }
             Stream::new_stream_encoder(&f, ref_check(case.opt.check))
         }
+        "xz-mt" => {
+            let mut f = Filters::new();
+            add_prefilters(&mut f, &case.opt.filters)?;
+            f.lzma2(&opts);
+            let mut b = liblzma::stream::MtStreamBuilder::new();
+            b.threads(case.knob_or("mt_threads", 1).clamp(1, 4) as u32).block_size(case.knob_or("mt_block", 4096).max(1) as u64).timeout_ms(0).filters(f).check(ref_check(case.opt.check));
+            b.encoder()
+        }
         "lzma-alone" => Stream::new_lzma_encoder(&opts),
         "lzma2-raw" => {
             let mut f = Filters::new();
@@ -486,7 +505,7 @@ fn ref_to_ours(case: &Case, data: &[u8], ctx: &mut Ctx) -> Option<Violation> {
     let effective = ref_lzma_options(case).ok();
     let _ = effective;
     match case.fmt.as_str() {
-        "xz-easy" | "xz-filters" => {
+        "xz-easy" | "xz-filters" | "xz-mt" => {
             rc.fmt = "xz".into();
             rc.set("multi", 0);
         }
